@@ -50,7 +50,7 @@ pub fn run_case(ast: &[Rule], vm: &pest_vm::Vm, rule: &str, input: &str, plus: P
 pub fn run(args: &Args) {
     let mut rep = Report::new(args);
     let mut rng = Rng::new(args.seed, "c01", args.shard);
-    let n_grammars = args.budget(3_000, 150_000);
+    let n_grammars = args.budget(60_000, 3_000_000);
     let mut cfg = GenCfg::new(Profile::Full);
     cfg.wild_left_refs_pct = 3;
     if let Some(path) = &args.replay {
